@@ -13,7 +13,10 @@
 //   * no raw CR anywhere in reported content, no raw TAB/LF in attribute values (XML line-end
 //     and attribute-value normalisation are not implemented and not documented by xml.hpp)
 //   * DOCTYPE is tokenised naively up to the matching '>' with [] nesting: no '[' / ']' inside
-//     literals or comments of the internal subset, no '>' / '[' in the external identifiers
+//     literals or comments of the internal subset, no '>' / '[' in the external identifiers.
+//     Quote characters are not looked at by that tokenizer, so literals holding the other quote
+//     character and comments / PIs holding any quote character (odd or even counts) are inside the
+//     subset and are generated
 //   * only the five predefined entities and numeric character references are decoded
 #pragma once
 #include "pbt.hpp"
@@ -258,6 +261,26 @@ inline Node genElement(pbt::Src &src, const GenOpts &go, int depth, std::set<std
   return e;
 }
 
+// Quote characters inside DOCTYPE literals / comments / PIs. XML allows the *other* quote character
+// inside a quoted literal (SystemLiteral, EntityValue, and the apostrophe inside a double-quoted
+// PubidLiteral) and any quote character inside comments and PIs; xml.hpp's DOCTYPE tokenizer does
+// not look at quotes at all, so odd and even counts are both inside the supported subset.
+inline std::string litNoise(pbt::Src &src, char q)
+{
+  const char o = q == '"' ? '\'' : '"';
+  switch (src.weighted({4, 3, 2, 1}))
+  {
+  case 0: return "";
+  case 1: return std::string("o") + o + "brien";                   // one (odd)
+  case 2: return std::string(1, o) + "x" + o;                       // two (even)
+  default: return std::string("a") + o + "b" + o + "c" + o;         // three (odd)
+  }
+}
+inline std::string quoteNoise(pbt::Src &src)
+{
+  return src.oneOf<std::string>({"", "", "don't", "say \"hi", "'\"'", "\"\"", "it's \"q\"", "'", "\""});
+}
+
 inline std::string genSubsetItem(pbt::Src &src)
 {
   static const std::vector<std::string> ents = {"e1", "ent", "xxe", "ext", "big"};
@@ -266,16 +289,18 @@ inline std::string genSubsetItem(pbt::Src &src)
   const auto kind = src.weighted({6, 4, 2, 2, 1, 1, 2, 1});
   const std::string ent = src.oneOf(ents);
   const bool alt = src.coin();
+  const std::string ln = kind <= 2 || kind == 5 ? litNoise(src, q[0]) : std::string();
+  const std::string qn = kind >= 6 ? quoteNoise(src) : std::string();
   switch (kind)
   {
-  case 0: return "<!ENTITY " + ent + " " + q + m + (alt ? " a > b" : "-v") + q + ">";
-  case 1: return "<!ENTITY " + ent + " SYSTEM " + q + "file:///" + m + "/passwd" + q + ">";
-  case 2: return "<!ENTITY % pe " + q + m + q + ">";
+  case 0: return "<!ENTITY " + ent + " " + q + m + ln + (alt ? " a > b" : "-v") + q + ">";
+  case 1: return "<!ENTITY " + ent + " SYSTEM " + q + "file:///" + m + "/" + ln + "passwd" + q + ">";
+  case 2: return "<!ENTITY % pe " + q + m + ln + q + ">";
   case 3: return std::string("<!ELEMENT zz ") + (alt ? "ANY" : "(#PCDATA)") + ">";
   case 4: return "<!ATTLIST zz-unused k CDATA #IMPLIED>";
-  case 5: return "<!NOTATION n1 SYSTEM " + q + m + q + ">";
-  case 6: return "<!-- subset comment > " + m + " -->";
-  default: return "<?sub pi " + m + " >?>";
+  case 5: return "<!NOTATION n1 SYSTEM " + q + m + ln + q + ">";
+  case 6: return "<!-- subset comment > " + qn + " " + m + " -->";
+  default: return "<?sub pi " + m + " " + qn + " >?>";
   }
 }
 
@@ -311,6 +336,20 @@ inline Doc genDoc(pbt::Src &src, const GenOpts &go)
   if (src.coin(1, 6)) ns.push_back(Attr{"xmlns", "http://example.org/d'\"ns"});
   if (src.coin()) d.root.attrs.insert(d.root.attrs.begin(), ns.begin(), ns.end());
   else d.root.attrs.insert(d.root.attrs.end(), ns.begin(), ns.end());
+  if (d.doctype && src.coin())
+  {
+    // quote characters in the body behind a DOCTYPE (a tokenizer that loses track of quoting inside
+    // the DOCTYPE re-synchronises on them)
+    d.root.attrs.push_back(Attr{"dq", src.oneOf<std::string>({"it's", "say \"hi\"", "'", "\"", "a'b\"c"})});
+    Node e;
+    e.k = Node::Elem;
+    e.name = "quoted";
+    Node t;
+    t.k = Node::Text;
+    t.value = src.oneOf<std::string>({"it's", "\"", "'\"'", "say \"hi", "x"});
+    e.kids.push_back(t);
+    d.root.kids.push_back(e);
+  }
   if (!d.root.kids.empty()) d.root.selfClose = false;
   return d;
 }
@@ -341,7 +380,8 @@ struct Features
 {
   bool entities = false, charRefs = false, cdata = false, comments = false, pis = false, decl = false, doctype = false,
        subset = false, prefixes = false, nonAscii = false, astral = false, leadWs = false, interWs = false,
-       singleQuote = false, emptyElems = false, tagWs = false, leadRefWs = false, hexUpper = false;
+       singleQuote = false, emptyElems = false, tagWs = false, leadRefWs = false, hexUpper = false, doctypeOddQuotes = false,
+       doctypeInnerQuotes = false;
   int maxDepth = 0;
   // measures for the configurable limits. *Lo = under the reading that yields the smallest
   // measure, *Hi = under the reading that yields the largest one
@@ -548,16 +588,21 @@ private:
       out() += tagWs(true);
       out() += "SYSTEM";
       out() += tagWs(true);
-      out() += q + "http://example.org/" + kMarker + ".dtd" + q;
+      const std::string ln = litNoise(src, q[0]);
+      out() += q + "http://example.org/" + kMarker + ln + ".dtd" + q;
     }
     if (d.externalId == 2)
     {
       out() += tagWs(true);
       out() += "PUBLIC";
       out() += tagWs(true);
-      out() += q + "-//X//DTD " + kMarker + "//EN" + q;
+      // PubidChar contains the apostrophe but not the double quote
+      const std::string pn = q[0] == '"' ? litNoise(src, '"') : std::string();
+      out() += q + "-//X" + pn + "//DTD " + kMarker + "//EN" + q;
       out() += tagWs(true);
-      out() += q + "x.dtd" + q;
+      const std::string q2(1, src.coin() ? '"' : '\'');
+      const std::string ln = litNoise(src, q2[0]);
+      out() += q2 + "x" + ln + ".dtd" + q2;
     }
     if (d.subset)
     {
@@ -578,6 +623,14 @@ private:
     e.end = out().size();
     noteText(0, e.raw.size());
     r.f.doctype = true;
+    {
+      std::size_t dq = 0, sq = 0;
+      for (char ch : e.raw) { dq += ch == '"'; sq += ch == '\''; }
+      // a literal / comment / PI holding the other quote character shows as an odd count of one kind
+      // or as more quote characters than the delimiters alone (4 per external id / entity value)
+      if ((dq + sq) % 2) r.f.doctypeOddQuotes = true;
+      if ((dq % 2) || (sq % 2)) r.f.doctypeInnerQuotes = true;
+    }
     r.evs.push_back(std::move(e));
   }
 
